@@ -844,9 +844,10 @@ def runner_factory_for(name):
     if name == "sync":
         from testtools.twistedsupport import SynchronousDeferredRunTest
         return SynchronousDeferredRunTest
-    if name == "async":
+    if name in ("async", "async_store"):
+        # ("async_store": with Twisted's log captured into a 'twisted-log' detail of the runner's own)
         from testtools.twistedsupport import AsynchronousDeferredRunTest
         from . import vreactor
         return AsynchronousDeferredRunTest.make_factory(
-            reactor=vreactor.make_reactor(), timeout=30, store_twisted_logs=False)
+            reactor=vreactor.make_reactor(), timeout=30, store_twisted_logs=(name == "async_store"))
     return None
